@@ -1,3 +1,4 @@
+import Fpdec.Kernels.DecRem
 import Fpdec.Kernels.Rem
 import Fpdec.Lemmas.Rem
 import Fpdec.Props.C10_Sites
@@ -62,5 +63,12 @@ theorem kernel_rem (prof : Profile) (a : Int) (p : Nat) (b : Int) (q : Nat) (hp 
     Gen.K.rem prof a p b q = Kernels.remResult <$> remCore a p b q := Kernels.rem_eq prof a p b q hp hq
 theorem kernel_checked_mul_pow_ten (prof : Profile) (val : Int) (n : Nat) :
     Gen.K.checked_mul_pow_ten prof val n = .ok (checkedMulPowTen val n) := Kernels.checked_mul_pow_ten_eq prof val n
+
+/-- `impl Rem<Decimal> for Decimal` / `impl CheckedRem<Decimal> for Decimal`, as translated on this run -/
+theorem kernel_decimal_rem (prof : Profile) (x y : Dec) (hp : x.nfrac < 256) (hq : y.nfrac < 256) :
+    Gen.K.decimal_rem prof x y = opOfChecked (eqZero y) (remDecDec x y) := Kernels.decimal_rem_eq prof x y hp hq
+theorem kernel_decimal_checked_rem (prof : Profile) (x y : Dec) (hp : x.nfrac < 256) (hq : y.nfrac < 256) :
+    Gen.K.decimal_checked_rem prof x y = checkedOfChecked (eqZero y) (remDecDec x y) :=
+  Kernels.decimal_checked_rem_eq prof x y hp hq
 
 end Fpdec.Props.C10
